@@ -77,6 +77,68 @@ def _is_len(x):
     return x.startswith("len(") or "PtrMetadata(arg1)" in x
 
 
+def rule_explen(chk, w):
+    """expand_array's callers cut its result into fixed-width items, so the result must have the
+    length the function computes for it (`out_len`): every returned vector is either the buffer
+    allocated with that length, or the input itself on the edge where `out_len == vin.len()` was
+    tested for the same `out_len`."""
+    import guards as G
+    fs = w.by_p.get("equihash::minimal::expand_array", [])
+    if len(fs) != 1:
+        chk.fail("LEN", "missing", "minimal::expand_array not found")
+        return
+    f = fs[0]
+    b, du = f.body, defuse.DefUse(f.body)
+    # the allocated buffer and its length operand
+    alloc = [(bb, t) for bb, t in b.calls() if not b.blocks[bb].cleanup and t.callee.indirect is None and
+             t.callee.target_p().endswith("vec::from_elem")]
+    if len(alloc) != 1 or alloc[0][1].dest is None:
+        chk.fail("LEN", "alloc", "expected one `vec![0; out_len]` allocation, found %d" % len(alloc), f.span.loc())
+        return
+    buf = alloc[0][1].dest.local
+    r = du.root_local(alloc[0][1].args[1].place) if alloc[0][1].args[1].kind in ("copy", "move") else None
+    out_len = r[1] if r and len(r) == 2 else None
+    if out_len is None:
+        chk.fail("LEN", "out_len", "the allocation length is not a single-definition value", f.span.loc())
+        return
+    bad, n = [], 0
+    for kind, bi, x in du.defs.get(0, []):
+        n += 1
+        if kind == "stmt" and x.rv.kind == "use" and x.rv.ops[0].kind in ("copy", "move"):
+            rr = du.root_local(x.rv.ops[0].place)
+            if rr and len(rr) == 2 and rr[1] == buf:
+                continue                  # the allocated buffer
+            bad.append("returns %s" % defuse.show(du.origin(x.rv.ops[0]))[:60])
+        elif kind == "call" and x.callee.indirect is None and x.callee.target_p().endswith("::to_vec") and \
+                defuse.strip_refs(du.origin(x.args[0])) == ("arg", 0):
+            ok = False
+            for sw, v, _tb in G.edge_conditions(b, bi):
+                d = b.blocks[sw].term.discr
+                dd = du.single(d.place.local) if d.kind in ("copy", "move") and not d.place.proj else None
+                if not (dd and dd[0] == "stmt" and dd[2].rv.kind == "bin" and dd[2].rv.op == "Eq"):
+                    continue
+                if G.truth(b.blocks[sw].term, v) is not True:
+                    continue
+                ops = dd[2].rv.ops
+                roots = []
+                for o_ in ops:
+                    rr = du.root_local(o_.place) if o_.kind in ("copy", "move") else None
+                    roots.append(rr[1] if rr and len(rr) == 2 else None)
+                txts = [defuse.show(du.origin(o_)) for o_ in ops]
+                if out_len in roots and any(re.match(r"^len\(&?\*?arg0\)$", t) for t in txts):
+                    ok = True
+            if not ok:
+                bad.append("returns the input unchanged without `out_len == vin.len()` having been tested")
+        else:
+            bad.append("returns a value of unknown length")
+    if not bad and n >= 2:
+        chk.ok("LEN", "expand_array returns either the out_len-sized buffer or, where out_len == vin.len(), the input "
+               "(%d return definitions)" % n, sample=True)
+    else:
+        chk.fail("LEN", "expand_array", "expand_array %s: its result no longer has the length its callers cut into "
+                 "fixed-width items" % "; ".join(bad or ["has too few return definitions"]), f.span.loc())
+
+
 def main(tier):
     chk = Check("C19", "other", tier)
     chk.explanation = (
@@ -92,6 +154,7 @@ def main(tier):
     chk.rule("G", "guards the reviewed entries rely on", floor=6)
     chk.rule("ACC", "Ok is unreachable once any individual check fails", floor=8)
     chk.rule("ARG", "lengths/widths are exactly the Params accessors", floor=5)
+    chk.rule("LEN", "expand_array's result has the length it computes", floor=1)
     chk.rule("control", "positive controls", floor=2)
 
     w = zf.World(extract.facts_dir("all"), ["equihash"])
@@ -425,4 +488,5 @@ def main(tier):
         chk.ok("control", "assume-analysis sees the Ok return when the check passes")
     else:
         chk.fail("control", "assume-ok", "control not flagged")
+    rule_explen(chk, w)
     chk.finish()
